@@ -127,6 +127,14 @@ def recording(PL):
         v = o_bin(a, b)
         rec.binom.append(float(v))
         return v
+    o_arg = getattr(PL, "_argmax_abs", None)
+
+    def argmax(poly):
+        r = o_arg(poly)
+        rec.xopt.append(np.array(r, dtype=float))
+        return r
+    if o_arg is not None:
+        PL._argmax_abs = argmax
     np.polynomial.chebyshev.chebfit = fit
     PL.approximate_taylor_polynomial = tay
     scipy.optimize.minimize = mini
@@ -140,6 +148,8 @@ def recording(PL):
         scipy.optimize.minimize = o_min
         scipy.special.jv = o_jv
         scipy.special.binom = o_bin
+        if o_arg is not None:
+            PL._argmax_abs = o_arg
 
 
 def call(PL, name, args, eb, rsc, cb, record=False):
